@@ -11,6 +11,7 @@ INVARIANT RefusalIff
 INVARIANT PointsOnce
 INVARIANT SegChain
 INVARIANT NowIsLast
+INVARIANT Bystander
 INVARIANT StepIntervals
 INVARIANT ProtocolIsComposition
 INVARIANT FailedFrozen
